@@ -73,6 +73,17 @@ func Harness_BMC_entry3() {
 	verifBMC()
 }
 
+// thorough: four concurrent requests
+func Harness_BMC_entry4() {
+	verifSeqBound(3)
+	hc := bmcEntrySetup()
+	verifGo("r1", func() { bmcRequest(hc, "r1") })
+	verifGo("r2", func() { bmcRequest(hc, "r2") })
+	verifGo("r3", func() { bmcRequest(hc, "r3") })
+	verifGo("r4", func() { bmcRequest(hc, "r4") })
+	verifBMC()
+}
+
 func Harness_BMC_entry2() {
 	verifSeqBound(1)
 	hc := bmcEntrySetup()
